@@ -178,9 +178,14 @@ def compare(spec, expanded, rows, cookie, opts='', leaves=frozenset()):
                 if link is None or link[0] != 'e':
                     return ('assumed-link', 'childless node %r (children '
                             'assumed) carries %r' % (p, link))
-                if list(decode_seq(link[1])) != [spec[0]] + list(p):
+                try:
+                    target = decode_seq(link[1])
+                except Exception as e:
+                    return ('link-undecodable', 'link of node %r: %r (%d '
+                            'chars)' % (p, e, len(link[1])))
+                if list(target) != [spec[0]] + list(p):
                     return ('link-target', 'link of node %r decodes to %r'
-                            % (p, decode_seq(link[1])))
+                            % (p, target))
             continue
         if link is None:
             return 'link-missing', 'node %r with children has no link' % (p,)
